@@ -51,8 +51,9 @@ ASSUMPTIONS = [
     "checks that read the statement slightly generously, each under its own finding class so it can be adjudicated "
     "separately: for_indexes keeps the order of the selection (:order); a bare Point is not reported for triangles it "
     "is strictly outside of (Point:spurious); CoordinateArrayTriangles.neighborhood lists no triangle twice "
-    "(coord.neighborhood:duplicates, its docstring promises uniqueness); for_limits_and_scale yields distinct "
-    "equilateral triangles of the requested side whose vertices reach the limits (for_limits_and_scale:*)",
+    "(coord.neighborhood:duplicates, its docstring promises uniqueness); for_limits_and_scale yields "
+    "equilateral triangles of the requested side whose vertices reach the limits (for_limits_and_scale:*); duplicate rows "
+    "returned by ArrayTriangles.for_limits_and_scale are outside the statement and only counted in the census (limdup)",
 ]
 BOUNDS = {
     "quick": "coord: 511 subsets of a 3x3 window x origins {(-1,-1),(0,-1)} x flipped {F,T} x side {1,0.5} x offsets "
@@ -649,8 +650,9 @@ def run_case(case):
         # the produced set is a set of distinct triangles whose vertices reach the requested limits
         ids = cluster_ids([tr], tol)
         keys = tri_keys(ids[0])
-        v.ok(len(set(keys)) == len(keys) and len(keys) > 0, "%s.for_limits_and_scale:duplicates" % rep,
-             lambda: "%d triangles, %d distinct" % (len(keys), len(set(keys))))
+        # NOT a violation: the statement only uses for_limits_and_scale as a producer of input sets. Exact duplicate
+        # rows (ArrayTriangles lists every odd-row triangle twice, abstract.py:153/163) are recorded in the census only.
+        limdup = int(len(set(keys)) != len(keys))
         pts = tr.reshape(-1, 2)
         slack = 1e-9 * sc
         cover = (pts[:, 0].min() <= first[0] + slack and pts[:, 0].max() >= first[1] - slack
@@ -659,7 +661,7 @@ def run_case(case):
              lambda: "vertex ranges [%r,%r]x[%r,%r] do not reach limits %s x %s"
              % (pts[:, 0].min(), pts[:, 0].max(), pts[:, 1].min(), pts[:, 1].max(), first, second))
         v.nontrivial = is_nontrivial(tr, tol, 1 if rep == "coord" else 0) and n_in > 0
-        v.outcome = "limits:%s:N%d:nb%d:arraydup%d%d" % (rep, N, K, dupn, dups)
+        v.outcome = "limits:%s:N%d:nb%d:arraydup%d%d:limdup%d" % (rep, N, K, dupn, dups, limdup)
     else:
         raise ValueError("unknown case kind %r" % (kind,))
     return v.result()
